@@ -39,6 +39,9 @@ pub struct Obs {
     stateless_cached: Vec<Vec<u8>>,
     /// the stateless observer's client: built with cache_proposals(false), as the documentation of that flow suggests
     stateless_client: Option<ExternalClient<XConfig>>,
+    /// the stateless observer calls `process_incoming_message` (no time given: nothing that depends on a clock is checked)
+    /// instead of `process_incoming_message_with_time`
+    stateless_without_time: bool,
 }
 
 impl Obs {
@@ -117,8 +120,12 @@ impl Obs {
             Err(e) if e.is_panic() => return Err(panic_failure(P, "ExternalClient::load_group(stateless)", &e)),
             Err(e) => return Err(fail(&format!("observer_cannot_restore_snapshot|{}", e.class()), e.text().into())),
         };
+        let plain = self.stateless_without_time;
+        if plain {
+            self.ev.class("stateless_observer_messages_processed_without_time");
+        }
         if kind == "proposal" {
-            match guard(|| g.process_incoming_message_with_time(MlsMessage::from_bytes(bytes)?, t)) {
+            match guard(|| if plain { g.process_incoming_message(MlsMessage::from_bytes(bytes)?) } else { g.process_incoming_message_with_time(MlsMessage::from_bytes(bytes)?, t) }) {
                 Ok(ExternalReceivedMessage::Proposal(d)) => {
                     let c = d.cached_proposal().to_bytes().map_err(|e| fail("cached_proposal_encode", format!("{e:?}")))?;
                     self.stateless_cached.push(c);
@@ -146,7 +153,7 @@ impl Obs {
                 };
                 self.ev.class("stateless_observer_snapshots_with_inserted_proposals");
             }
-            match guard(|| g.process_incoming_message_with_time(MlsMessage::from_bytes(bytes)?, t)) {
+            match guard(|| if plain { g.process_incoming_message(MlsMessage::from_bytes(bytes)?) } else { g.process_incoming_message_with_time(MlsMessage::from_bytes(bytes)?, t) }) {
                 Ok(ExternalReceivedMessage::Commit(_)) => {
                     self.stateless_cached.clear();
                     self.stateless = Some(g.snapshot().to_bytes().map_err(|e| fail("observer_snapshot_failed", format!("{e:?}")))?);
@@ -161,6 +168,107 @@ impl Obs {
                 )),
             }
         }
+    }
+
+    /// The history ends with a ReInit commit. The observers follow it like any commit; afterwards the old group is frozen
+    /// for them as it is for the members: a commit by a member that ignores the freeze (hook: a copy of a member that
+    /// forgot the pending re-initialisation) is refused by members and observers alike.
+    fn reinit_epilogue(&mut self, w: &mut World) -> CaseResult {
+        let members = w.members();
+        if members.len() < 2 {
+            return Ok(());
+        }
+        w.flush(1)?;
+        self.catch_up(w)?;
+        if members.iter().any(|m| w.parties[*m].g().has_pending_commit()) {
+            return Ok(());
+        }
+        let a = members[self.rng.below(members.len() as u64) as usize];
+        let t = w.tick();
+        let suite = w.cfg.suite;
+        let built = {
+            let party = &mut w.parties[a];
+            party.gm().clear_proposal_cache();
+            guard(|| party.gm().commit_builder().reinit(Some(b"next".to_vec()), mls_rs::ProtocolVersion::MLS_10, mls_rs::CipherSuite::from(suite), ExtensionList::new())?.commit_time(t).build())
+        };
+        let out = match built {
+            Ok(o) => o,
+            Err(e) if e.is_panic() => return Err(panic_failure(P, "commit_builder.reinit.build", &e)),
+            Err(e) => {
+                self.ev.class(&format!("reinit_commit_not_built:{}", e.class()));
+                return Ok(());
+            }
+        };
+        let bytes = out.commit_message.to_bytes().expect("enc");
+        for m in &members {
+            if *m == a {
+                continue;
+            }
+            w.parties[*m].gm().clear_proposal_cache();
+            match w.process(*m, &bytes) {
+                Ok(_) => {}
+                Err(e) if e.is_panic() => return Err(panic_failure(P, "process_incoming_message(reinit commit)", &e)),
+                Err(e) => return Err(setup_failure(P, "members process the ReInit commit", &e)),
+            }
+        }
+        {
+            let party = &mut w.parties[a];
+            guard(|| party.gm().apply_pending_commit()).map_err(|e| setup_failure(P, "apply ReInit commit", &e))?;
+        }
+        w.epoch += 1;
+        w.commits += 1;
+        w.log_wire("commit", &bytes);
+        // the observers follow, and agree with the members on the epoch they are all stuck in
+        self.stateless_cached.clear();
+        self.catch_up(w)?;
+        self.compare(w)?;
+        self.ev.class("reinit_commits_followed_by_observer");
+        // a member that ignores the freeze
+        let b = members[self.rng.below(members.len() as u64) as usize];
+        let mut rogue = w.parties[b].g().clone();
+        rogue.verif_forget_pending_reinit();
+        let t = w.tick();
+        let rogue_commit = match guard(|| rogue.commit_builder().commit_time(t).build()) {
+            Ok(o) => o.commit_message.to_bytes().expect("enc"),
+            Err(e) if e.is_panic() => return Err(panic_failure(P, "commit_builder.build(rogue)", &e)),
+            Err(e) => {
+                self.ev.class(&format!("rogue_commit_not_built:{}", e.class()));
+                return Ok(());
+            }
+        };
+        for m in &members {
+            if *m == b {
+                continue;
+            }
+            let mut clone = w.parties[*m].g().clone();
+            match guard(|| clone.process_incoming_message_with_time(MlsMessage::from_bytes(&rogue_commit)?, t)) {
+                Ok(_) => self.ev.class("member_accepts_commit_after_reinit(decided by C17)"),
+                Err(e) if e.is_panic() => return Err(panic_failure(P, "process_incoming_message(commit after reinit)", &e)),
+                Err(e) => self.ev.class(&format!("member_refuses_commit_after_reinit:{}", e.class())),
+            }
+        }
+        if let Some(g) = self.group.as_ref() {
+            let mut clone = g.clone();
+            match guard(|| clone.process_incoming_message_with_time(MlsMessage::from_bytes(&rogue_commit)?, t)) {
+                Ok(_) => {
+                    return Err(fail(
+                        "observer_accepts_commit_after_reinit",
+                        format!("the group was re-initialised in epoch {}; the observer accepts a further commit for it and moves to epoch {} (the members refuse it)", w.epoch - 1, clone.group_context().epoch),
+                    ))
+                }
+                Err(e) if e.is_panic() => return Err(panic_failure(P, "observer.process_incoming_message(commit after reinit)", &e)),
+                Err(e) => self.ev.class(&format!("observer_refuses_commit_after_reinit:{}", e.class())),
+            }
+        }
+        if let (Some(snap), Some(client)) = (self.stateless.clone(), self.stateless_client.as_ref()) {
+            match guard(|| client.load_group(ExternalSnapshot::from_bytes(&snap)?)?.process_incoming_message_with_time(MlsMessage::from_bytes(&rogue_commit)?, t)) {
+                Ok(_) => return Err(fail("observer_accepts_commit_after_reinit|stateless", "restored from its snapshot, the observer accepts a commit for the re-initialised group".into())),
+                Err(e) if e.is_panic() => return Err(panic_failure(P, "observer.process_incoming_message(commit after reinit, stateless)", &e)),
+                Err(e) => self.ev.class(&format!("stateless_observer_refuses_commit_after_reinit:{}", e.class())),
+            }
+        }
+        self.ev.nontrivial(&("reinit", w.epoch, a, b));
+        Ok(())
     }
 
     fn compare_stateless(&mut self, w: &World) -> CaseResult {
@@ -519,6 +627,9 @@ impl Observer for Obs {
             self.catch_up(w)?;
             self.compare(w)?;
             self.window_probe(w)?;
+            if self.rng.below(2) == 0 {
+                self.reinit_epilogue(w)?;
+            }
         }
         Ok(())
     }
@@ -530,6 +641,7 @@ pub fn run(ctx: &Ctx) -> ! {
     hp.weights = [10, 8, 9, 2, 0, 1, 2, 28, 5, 12, 2, 16];
     hp.external_sender = true;
     hp.force_public_handshake = true;
+    hp.short_key_package_lifetimes = true;
     hp.cross_decrypt_every = 2;
     hp.max_initial = ctx.tier.pick(6, 12);
     let spec = RunSpec {
@@ -549,7 +661,7 @@ pub fn run(ctx: &Ctx) -> ! {
          generated epoch with max_epoch_jitter in {unset, 0, 1, 3, epoch, epoch+1, u64::MAX}; it is fed every proposal, commit, external commit and application ciphertext in order, snapshot -> bytes -> \
          load_group (with and without tree) at generated points, and issues add / remove / custom / PSK proposals as the listed external sender. Oracle: after every commit its group context, roster and exported \
          tree equal the members'; it accepts every genuine message; field-addressed corruptions of handshake messages are rejected unless they only touch what needs group secrets (membership / confirmation tag); \
-         its proposals are accepted by all members and committed; application ciphertexts of epoch e are reported as Ciphertext iff epoch - jitter <= e (saturating), for every jitter, and nothing panics. \
+         its proposals are accepted by all members and committed; half of the histories end with a ReInit commit, after which the observers refuse the commit of a member that ignores the freeze; half of the worlds use key packages that are valid on the fake clock only and half of the stateless observers process without a time; application ciphertexts of epoch e are reported as Ciphertext iff epoch - jitter <= e (saturating), for every jitter, and nothing panics. \
          Non-trivial = window probes on ciphertexts of earlier epochs and external proposals; distinct by (epoch, message epoch, jitter) / (epoch, kind).",
         &hp,
         spec,
@@ -569,6 +681,7 @@ pub fn run(ctx: &Ctx) -> ! {
             stateless: None,
             stateless_cached: vec![],
             stateless_client: None,
+            stateless_without_time: case.c(9) % 2 == 0,
         },
         &|_, o| {
             o.ev.class_n("commits_tracked_by_observer", o.commits_tracked);
